@@ -29,6 +29,9 @@ type c08Case struct {
 	Start int64 `json:"start_offset"`
 	Steps int   `json:"steps"`
 	Trail []int `json:"trail"`
+	// FullUntil: 0: the incremental phase from the start; k>0: the full phase (WaitFull open) lasts
+	// until just before stimulus k (k > steps: until the settle phase)
+	FullUntil int `json:"full_phase_until_step,omitempty"`
 }
 
 var c08Stream []byte
@@ -126,6 +129,17 @@ func c08Run(t *testing.T, c c08Case, ch *seqx.Chooser) (kind, what string, trace
 			c0, s0 := memconn.Pair("source0")
 			go m.Serve(s0)
 			ds := syncNewDs(cfg)
+			fullOpen := c.FullUntil > 0
+			if fullOpen {
+				ds.WaitFull = make(chan struct{})
+			}
+			endFull := func() {
+				if fullOpen {
+					close(ds.WaitFull)
+					fullOpen = false
+					trace = append(trace, "full-phase-ends")
+				}
+			}
 			piper, pipew := pipe.NewSize(1 << 20)
 			go ds.parseSourceCommand(bufio.NewReaderSize(piper, 4096))
 			go func() {
@@ -145,6 +159,15 @@ func c08Run(t *testing.T, c c08Case, ch *seqx.Chooser) (kind, what string, trace
 			var lastAck int64 = -1
 			check := func(afterTick bool) {
 				acks := m.Acks()
+				if fullOpen {
+					for _, a := range acks[seenAcks:] {
+						if a != 0 {
+							bad("ack-during-full", fmt.Sprintf("REPLCONF ACK %d while the full phase is still running (must be 0)", a))
+						}
+					}
+					seenAcks = len(acks)
+					afterTick = false
+				}
 				for _, a := range acks[seenAcks:] {
 					if a > c.Start+int64(sent) {
 						bad("ack-ahead", fmt.Sprintf("REPLCONF ACK %d but only %d bytes were received after start offset %d (= %d)", a, sent, c.Start, c.Start+int64(sent)))
@@ -174,6 +197,9 @@ func c08Run(t *testing.T, c c08Case, ch *seqx.Chooser) (kind, what string, trace
 			}
 			ncuts := 0
 			for step := 0; step < c.Steps && kind == ""; step++ {
+				if step+1 == c.FullUntil {
+					endFull()
+				}
 				opts := 4
 				if !connected {
 					opts = 1 // only time can pass until the tool has reconnected
@@ -208,6 +234,12 @@ func c08Run(t *testing.T, c c08Case, ch *seqx.Chooser) (kind, what string, trace
 				}
 			}
 			// settle: let the tool reconnect and acknowledge
+			if fullOpen {
+				time.Sleep(time.Second)
+				synctest.Wait()
+				check(false)
+				endFull()
+			}
 			for i := 0; i < 3 && kind == ""; i++ {
 				time.Sleep(time.Second)
 				synctest.Wait()
@@ -278,12 +310,23 @@ func TestVerif_C08(t *testing.T) {
 	ev.Bound("stimulus_alphabet", c08StimNames)
 	ev.Bound("max_cuts", 2)
 	var n, trans int64
-	for si, start := range starts {
+	type c08Cfg struct {
+		start     int64
+		fullUntil int
+	}
+	var cfgs []c08Cfg
+	for _, start := range starts {
+		cfgs = append(cfgs, c08Cfg{start, 0})
+	}
+	// the full phase is still running for the first stimuli / for all of them
+	cfgs = append(cfgs, c08Cfg{1 << 31, 3}, c08Cfg{5000000000, 99})
+	for si, cf := range cfgs {
+		start := cf.start
 		st := steps
 		if si > 0 && !ev.Thorough() {
 			st = 4
 		}
-		c := c08Case{Start: start, Steps: st}
+		c := c08Case{Start: start, Steps: st, FullUntil: cf.fullUntil}
 		opt := seqx.Options{MaxDev: dev, ShardDepth: 2, Mine: func(p []int) bool {
 			h := int64(0)
 			for _, v := range p {
@@ -300,7 +343,7 @@ func TestVerif_C08(t *testing.T) {
 			trans += int64(len(tr))
 			cc := c
 			cc.Trail = append([]int{}, ch.Trail...)
-			h := ev.HashS(fmt.Sprint(start, ch.Trail))
+			h := ev.HashS(fmt.Sprint(start, cf.fullUntil, ch.Trail))
 			ev.State(h)
 			nt := false
 			for _, s := range tr {
